@@ -246,6 +246,38 @@ def r2(run: Run, src, g):
                                   'library exception', fact=f'raises {sorted({e for e, _ in rs})}', loc=loc)
 
 
+def r2_any(run: Run, src, g):
+    """the production matcher decided by evaluation of AstBuilder.parse / <composite>.get on the token lists of probe formulas
+    against the meaning of ordered choice over the productions of engine G; the structural reading of the matcher loop counts in
+    addition where the loop can be read, and alone when the abstraction cannot follow the parser"""
+    from . import lexer_eval
+    sub = Run('tmp', run.tier, run.seed, quiet=True)
+    evaluated = False
+    try:
+        probes = None if run.tier == 'thorough' else lexer_eval.PARSE_PROBES[:6] + lexer_eval.PARSE_PROBES[9:14] + lexer_eval.PARSE_PROBES[20:]
+        lexer_eval.parser_obligations(sub, 'C05.R2', src, g, probes=probes)
+        evaluated = True
+    except AnalysisError as e:
+        run.note(f'C05.R2: the parser by structure only ({e.reason[:120]})')
+    if not evaluated:
+        return r2(run, src, g)
+    for o in sub.obligations:
+        if o['verdict'] == 'holds':
+            run.ok(o['rule'], o['construct'], o['fact'], loc=o['loc'])
+    for f_ in sub.findings:
+        run.bad(f_['rule'], f_['construct'], f_['sub'], f_['message'], loc=f_['loc'])
+    sub2 = Run('tmp', run.tier, run.seed, quiet=True)
+    try:
+        r2(sub2, src, g)
+    except AnalysisError as e:
+        run.note(f'C05.R2: the structural reading gave up ({e.reason[:120]}); the evaluated probes decide')
+    for o in sub2.obligations:
+        if o['verdict'] == 'holds':
+            run.ok(o['rule'], o['construct'], o['fact'], loc=o['loc'])
+    for f_ in sub2.findings:
+        run.bad(f_['rule'], f_['construct'], f_['sub'], f_['message'], loc=f_['loc'])
+
+
 def r3(run: Run, src, g):
     """the lexer cannot drop characters: decided by evaluation of the lexer on probe formulas against the meaning of the lexer
     loop over the terminals of the grammar model; the structural reading of RegexpBaseToken.get / Lexer.parse is the fallback"""
@@ -694,7 +726,7 @@ def run(run: Run):
     run.rule('C05.R5', 'quote-delimited terminals cannot run over their closing quote')
     run.rule('C05.R6', 'every argument of every function production reaches the emitted code')
     run.guard('C05.R1', r1, run, src, g)
-    run.guard('C05.R2', r2, run, src, g)
+    run.guard('C05.R2', r2_any, run, src, g)
     run.guard('C05.R3', r3, run, src, g)
     run.guard('C05.R4', r4, run, src, g, em)
     run.guard('C05.R5', r5, run, src, g)
